@@ -10,6 +10,8 @@ CONSTANTS PWSeq,     \* password alphabet as a sequence (must contain "")
           HAlgs,     \* algorithms explored (each behaviour uses one)
           MaxLen,    \* maximum history length for the algorithms in DeepAlgs (one less for the others)
           DeepAlgs,
+          Reals,     \* password realisations explored (subset of Sec!Realisations; 0 = one-byte passwords)
+          RealLen,   \* maximum history length for realisations other than 0
           ProbeAll,  \* TRUE: probe every pair in PWs x PWs, FALSE: only pairs with one empty component
           Emit
 
@@ -18,8 +20,8 @@ PW3 == <<"", "a", "b">>                    \* cfg: PWSeq <- PW3
 PW4 == <<"", "a", "uni", "long">>          \* non-ASCII and 40-byte passwords (real values in the Go replayer)
 PW5 == <<"", "a", "b", "uni", "long">>
 
-VARIABLES alg, doc, hist
-vars == <<alg, doc, hist>>
+VARIABLES alg, real, doc, hist
+vars == <<alg, real, doc, hist>>
 
 PNone == -3901     \* 0xF0C3 as 16-bit signed: nothing granted
 PAll  == -1        \* 0xFFFF: everything granted
@@ -34,14 +36,14 @@ StepSet(a, d) ==
   \cup {Step("ChangeUPW", a, u, o, n, 0) : u \in PWs, o \in PWs, n \in PWs}
   \cup {Step("ChangeOPW", a, u, o, n, 0) : u \in PWs, o \in PWs, n \in PWs}
 
-Init == alg \in HAlgs /\ doc = Plain /\ hist = <<>>
+Init == alg \in HAlgs /\ real \in Reals /\ doc = Plain /\ hist = <<>>
 
-Next == /\ Len(hist) < (IF alg \in DeepAlgs THEN MaxLen ELSE MaxLen - 1)
+Next == /\ Len(hist) < (IF real # 0 THEN RealLen ELSE IF alg \in DeepAlgs THEN MaxLen ELSE MaxLen - 1)
         /\ (IF hist = <<>> THEN TRUE ELSE hist[Len(hist)].out = "ok")
         /\ \E s \in StepSet(alg, doc) :
              /\ hist' = Append(hist, [s |-> s, out |-> Outcome(doc, s), pre |-> doc])
              /\ doc' = After(doc, s)
-        /\ UNCHANGED alg
+        /\ UNCHANGED <<alg, real>>
 Spec == Init /\ [][Next]_vars
 
 LastH == hist[Len(hist)]
@@ -77,7 +79,8 @@ Probe(d, u, o) == [u |-> u, o |-> o, out |-> OpenOutcome(d, "VALIDATE", u, o),
                    acc |-> IF d.enc THEN Access(d, u, o) ELSE "owner"]
 Probes == [i \in DOMAIN ProbePairs |-> Probe(doc, ProbePairs[i][1], ProbePairs[i][2])]
 
-Case == [alg |-> alg, steps |-> [i \in 1..Len(hist) |-> hist[i].s], out |-> LastH.out,
+Case == [alg |-> alg, real |-> real, la |-> PwLen(real, "a"), lb |-> PwLen(real, "b"),
+         mba |-> PwMultiByte(real, "a"), mbb |-> PwMultiByte(real, "b"), steps |-> [i \in 1..Len(hist) |-> hist[i].s], out |-> LastH.out,
          post |-> doc, opens |-> IF LastH.out = "ok" THEN Probes ELSE <<>>]
 EmitCase == (Emit /\ hist # <<>>) => PrintT(<<"CASE", ToJson(Case)>>)
 =============================================================================
